@@ -60,6 +60,33 @@ func unzipSpec(stream []byte) string {
 	return hx(out)
 }
 
+// unzipTable: for every well-formed compressed frame of a stream, what its registered compressor's Unzip returns
+// for the frame's raw payload: "ct/raw:out,..." ("-" when no frame is compressed)
+func unzipTable(stream []byte) string {
+	var ent []string
+	for len(stream) >= 16 {
+		f, err := refcodec.Parse(stream)
+		if err != nil {
+			break
+		}
+		if ct := compressOf(f.Header); ct != 0 {
+			if c := protocol.Compressors[protocol.CompressType(ct)]; c != nil {
+				out, uerr := safeUnzip(c, f.Raw)
+				v := hx(out)
+				if uerr != nil {
+					v = "E"
+				}
+				ent = append(ent, fmt.Sprintf("%d/%s:%s", ct, hx(f.Raw), v))
+			}
+		}
+		stream = stream[f.FrameLn:]
+	}
+	if len(ent) == 0 {
+		return "-"
+	}
+	return strings.Join(ent, ",")
+}
+
 func safeUnzip(c protocol.Compressor, raw []byte) (out []byte, err error) {
 	defer func() {
 		if e := recover(); e != nil {
@@ -232,6 +259,7 @@ func c02All(o *common.Out, id string, max int, chunks []int, stream []byte, want
 	rd := bufio.NewReaderSize(&chunkReader{data: append([]byte{}, stream...), chunks: chunks}, 64)
 	msg := protocol.NewMessage()
 	var got []string
+	var held []*protocol.Message
 	end := "none"
 	for {
 		var err error
@@ -250,7 +278,15 @@ func c02All(o *common.Out, id string, max int, chunks []int, stream []byte, want
 			break
 		}
 		got = append(got, showMsg(msg))
+		held = append(held, msg)
 		msg = protocol.NewMessage()
+	}
+	// a decoded message belongs to its receiver: decoding the frames that follow must not change it
+	for i, m := range held {
+		if now := showMsg(m); now != got[i] {
+			o.Fail(id, "decoded-message-changed-later", fmt.Sprintf("message %d of the stream read %s right after its decode and %s after the rest of the stream was decoded", i, got[i], now), abstract)
+			break
+		}
 	}
 	obs := fmt.Sprintf("n=%d %s end=%s", len(got), strings.Join(got, " ; "), end)
 	if want != nil {
@@ -258,8 +294,11 @@ func c02All(o *common.Out, id string, max int, chunks []int, stream []byte, want
 			o.Fail(id, "resync", fmt.Sprintf("chunked stream of %d frames decoded to %d messages (end=%s) or different contents", len(want), len(got), end), abstract)
 		}
 	}
-	o.Case(id, fmt.Sprintf("all %d %s", max, hx(stream)), obs, len(want) > 1)
+	o.Case(id, fmt.Sprintf("all %d %s %s", max, hx(stream), unzipTable(stream)), obs, len(want) > 1)
 }
+
+// c02SmallZip: the small frames of multi-frame streams carry compressed payloads (gzip / snappy)
+var c02SmallZip bool
 
 func c02RandFrame(r *common.Rand, small bool) (frame []byte, shown string) {
 	h := genHeader(r)
@@ -274,6 +313,9 @@ func c02RandFrame(r *common.Rand, small bool) (frame []byte, shown string) {
 	}
 	if small {
 		ct = 0
+		if c02SmallZip {
+			ct = 1 + r.Intn(2)
+		}
 	}
 	setCompress(&h, ct)
 	path, meth := genField(r, false), genField(r, false)
@@ -525,11 +567,13 @@ func runC02(r *common.Rand, tier string, o *common.Out, replay string) {
 		k := 1 + r.Intn(5)
 		var stream []byte
 		var want []string
+		c02SmallZip = i%3 == 1 // every third stream: compressed payloads in every frame
 		for j := 0; j < k; j++ {
 			fr, shown := c02RandFrame(r, true)
 			stream = append(stream, fr...)
 			want = append(want, shown)
 		}
+		c02SmallZip = false
 		var chunks []int
 		for j := 0; j < 1+r.Intn(6); j++ {
 			chunks = append(chunks, 1+r.Intn(23))
